@@ -978,3 +978,28 @@ package decoder
 //@   requires d != nil && ctx != nil && ctx.Option != nil && bufOK(ctx.Buf, cursor)
 //@   ensures err == nil ==> cursor < c && c < len(old(ctx.Buf))
 //@   assigns all
+
+// ---------------------------------------------------------------- `,string` fields (C07, C06)
+// The destination is dsize(d.dec) bytes at p; a pointer-typed destination (isPtrType) is 8 bytes. On
+// `null` only a pointer destination is written (set to nil); a non-pointer destination keeps its bytes.
+//@ func (*stringDecoder).decodeStreamByte(d, s) (res, err)
+//@   props C07 C09
+//@   trusted stream-mode string scanner (refill branches, in-place unescape in the window; covered by the bounded chunking stand-in)
+//@   requires d != nil && s != nil
+//@   ensures err == nil && res != nil ==> len(res) >= 0 && len(res) <= cap(res)
+//@   assigns M, Stream.buf, Stream.bufSize, Stream.length, Stream.cursor, Stream.offset, Stream.filledBuffer, Stream.allRead, Stream.readErr
+
+//@ func (*wrappedStringDecoder).Decode(d, ctx, cursor, depth, p) (c, err)
+//@   props C07 C06
+//@   requires d != nil && d.stringDecoder != nil && d.dec != nil && ctx != nil && bufOK(ctx.Buf, cursor)
+//@   requires d.isPtrType ==> dsize(dataOf(d.dec)) == 8
+//@   requires region(p, dsize(dataOf(d.dec))) && dstApart(p, dsize(dataOf(d.dec)), ctx.Buf) && dsize(dataOf(d.dec)) >= 1
+//@   ensures err == nil ==> cursor < c && c < len(old(ctx.Buf)) && ctx.Buf == old(ctx.Buf)
+//@   assigns all
+
+//@ func (*wrappedStringDecoder).DecodeStream(d, s, depth, p) (err)
+//@   props C07 C09 C06
+//@   requires d != nil && d.stringDecoder != nil && d.dec != nil && s != nil
+//@   requires d.isPtrType ==> dsize(dataOf(d.dec)) == 8
+//@   requires region(p, dsize(dataOf(d.dec))) && dsize(dataOf(d.dec)) >= 1
+//@   assigns all
